@@ -893,10 +893,19 @@ def run_c12(o, tier, rng, prep):
     o.rule = "legal non-terminal positions with <= 9 pieces from specification-generated games, each searched with its game history in the repetition record and without, plus under-promotion/stalemate positions and shuffle histories offering a repetition at the horizon; final score and first PV move of every completed depth 1..3 judged against the extracted plain alpha-beta negamax over the model's generator/evaluation; non-trivial = one judged depth result"
 
 
+CAPTURE_HEAVY_FENS = [
+    "rnbqkbnr/qqqqqqqq/8/8/8/8/QQQQQQQQ/RNBQKBNR w - - 0 1",     # (F11) before the repair: no answer within 40 s
+    "rnbqkbnr/qqqqqqqq/8/8/8/8/QQQQQQQQ/RNBQKBNR b - - 0 1",
+    "qqqqkqqq/qq6/8/8/8/8/QQ6/QQQQKQQQ w - - 0 1",
+    "1q2k1q1/qq3qqq/8/8/8/8/QQ3QQQ/1Q2K1Q1 b - - 0 1",
+]
+
+
 def blackbox_searches(o, tier, rng, slices, n):
     """timed searches on the real binary; returns (case, fen, legal moves, stdout lines of the reply, seconds)"""
     import blackbox
-    pos = small_positions(rng, n * 2, max_pieces=14)[:n]
+    # capture-heavy positions first: their quiescence trees are huge, the answer must still come on time
+    pos = [(f, [], f) for f in CAPTURE_HEAVY_FENS] + small_positions(rng, n * 2, max_pieces=14)[:n]
     legal = root_legal_moves([f for _, _, f in pos])
     out = []
     eng = blackbox.Engine(V.BINARY)
@@ -1595,12 +1604,18 @@ def run_c08(o, tier, rng, prep):
     eng = blackbox.Engine(V.BINARY)
     try:
         eng.handshake()
-        for fen in HEAVY_FENS:
-            for clock in (101, 102, 110, 125, 140, 163):
+        for fen in HEAVY_FENS + CAPTURE_HEAVY_FENS:
+            for clock in (101, 102, 110, 125, 140, 163, 400, 725):
                 eng.send("position fen " + fen)
+                t0 = time.time()
                 eng.send("go wtime %d btime %d movestogo 1" % (clock, clock))
                 lines = eng.read_until(lambda l: l.startswith("bestmove"), timeout=6)
+                dt = (time.time() - t0) * 1000
                 o.evaluations += 1
+                if lines[-1] is not None and dt > 0.8 * (clock - 100) + 1500:
+                    ok = False
+                    o.violation("input", "bestmove after %.0f ms, slice %.0f ms: position fen %s | go wtime %d btime %d movestogo 1" % (dt, 0.8 * (clock - 100), fen, clock, clock),
+                                {"fen": fen, "clock": clock, "ms": dt})
                 if lines[-1] is None or not eng.isready(3):
                     ok = False
                     o.violation("input", "no bestmove/readyok with a tiny slice: position fen %s | go wtime %d btime %d movestogo 1" % (fen, clock, clock),
